@@ -181,3 +181,39 @@ Definition calculate_add (v : var) (n : Z) (h : holder) (P : period) : res arr :
   else
     let* T := subperiods P (v_def v) in
     Ok (sum_tiles v n h T).
+
+(** * Vocabulary of the statements in props/C16.v (definitions only) *)
+
+(** value of entity [i] in an array (0 outside) *)
+Definition ent (i : nat) (a : arr) : Q := nth i a 0%Q.
+Definition qsum (l : list Q) : Q := fold_right Qplus 0%Q l.
+
+Definition is_known (v : var) (h : holder) (t : period) : bool :=
+  match holder_get v h t with Some _ => true | None => false end.
+Definition known_tiles (v : var) (h : holder) (T : list period) : list period :=
+  filter (is_known v h) T.
+Definition unknown_tiles (v : var) (h : holder) (T : list period) : list period :=
+  filter (fun t => negb (is_known v h t)) T.
+
+(** value of entity [i] for sub-period [t] (the default 0 when unknown) *)
+Definition val (v : var) (n : Z) (h : holder) (i : nat) (t : period) : Q := ent i (getd v n h t).
+
+(** every stored array has one element per entity *)
+Definition wf_holder (n : Z) (h : holder) : Prop :=
+  forall p a, get h p = Some a -> Z.of_nat (length a) = n.
+
+(** what [Holder._set] accepts for a non-eternal variable *)
+Definition tile_ok (v : var) (t : period) : Prop := p_unit t = v_def v /\ p_size t <= 1.
+
+(** what is left of the amount for entity [i] once the known sub-periods are subtracted,
+    the number of sub-periods still to fill, the equal share *)
+Definition remainder (v : var) (n : Z) (h : holder) (T : list period) (a : arr) (i : nat) : Q :=
+  (ent i a - qsum (map (val v n h i) (known_tiles v h T)))%Q.
+Definition n_unknown (v : var) (h : holder) (T : list period) : Z :=
+  Z.of_nat (length (unknown_tiles v h T)).
+Definition share (v : var) (n : Z) (h : holder) (T : list period) (a : arr) (i : nat) : Q :=
+  (remainder v n h T a i / inject_Z (n_unknown v h T))%Q.
+
+(** the input is not dropped by [Simulation.set_input] because of the variable's [end] *)
+Definition not_after_end (v : var) (P : period) : Prop :=
+  match v_end v with None => True | Some e => date_ltb e (p_start P) = false end.
